@@ -306,6 +306,11 @@ impl SecondaryStorage {
     pub(super) async fn drop_table_inner(&self, table_id: TableRefId) -> StorageResult<()> {
         let mut changeset = vec![];
 
+        // Exclude a concurrent compaction (or DELETE) of this table: it would replace the
+        // row-sets listed below between the pin and the commit, and the stale DeleteRowSet
+        // entries would then panic in the version manager.
+        let _guard = self.txn_mgr.lock_for_deletion(table_id.table_id).await;
+
         let entry = DropTableEntry { table_id };
 
         // contrary to create table, we first modify the catalog
